@@ -1,8 +1,10 @@
 package scen
 
 import (
+	"encoding/json"
 	"fmt"
 	"strings"
+	"time"
 
 	"github.com/asaskevich/EventBus"
 	"github.com/prometheus/client_golang/prometheus"
@@ -73,5 +75,97 @@ func runC16Gauges(c *Ctx) {
 			}
 		}
 		vd.Close()
+	}
+}
+
+// Scrapes at the callback points of a rebalance and of Close(): "a scrape at any point ... neither blocks nor crashes".
+// The collector runs on a goroutine of its own (as prometheus runs it), so a panic ends the process: child processes.
+type c16WinArg struct {
+	Point string // the event-handler callback during which the scrape runs
+	Op    string // "rebalance" | "close"
+}
+
+type c16WinRes struct {
+	Reached bool   // the callback was reached
+	Kind    string // "metrics" | "nometrics" | "ignored" (the scrape blocked)
+	Rows    int
+	Seqs    map[uint16]uint64
+}
+
+func init() {
+	Children["c16win"] = func(raw json.RawMessage) {
+		var a c16WinArg
+		must(json.Unmarshal(raw, &a))
+		d := NewSDriverOpt(SCfg{Colls: map[uint32]string{}}, map[uint16]SDoc{0: {UUID: 70, Seq: 2, Start: 2, End: 2}}, false)
+		d.cfg.Dcp.Group.Membership.RebalanceDelay = 50 * time.Millisecond
+		d.Disc.Set(0, 1)
+		sv := &SServer{High: map[uint16]uint64{0: 9, 1: 9}, UUID: map[uint16]uint64{0: 70, 1: 71}}
+		d.setServer(sv)
+		d.Stream.Open()
+		d.Hand.SetHold(a.Point, true)
+		if a.Op == "rebalance" {
+			go d.Stream.Rebalance()
+		} else {
+			go d.Stream.Close(false)
+		}
+		res := c16WinRes{}
+		select {
+		case <-d.Hand.Held:
+			res.Reached = true
+			o := d.scrape(sv.High)
+			res.Kind = o.Kind
+			res.Rows = len(o.OffRows)
+			res.Seqs = map[uint16]uint64{}
+			for vb, r := range o.OffRows {
+				res.Seqs[vb] = r[0]
+			}
+			d.Hand.SetHold(a.Point, false)
+			d.Hand.Resume()
+		case <-time.After(3 * time.Second):
+		}
+		time.Sleep(200 * time.Millisecond)
+		b, _ := json.Marshal(res)
+		fmt.Println("RESULT " + string(b))
+	}
+}
+
+func runC16Windows(c *Ctx) {
+	var jobs []c16WinArg
+	for _, p := range []string{"BeforeRebalanceStart", "BeforeStreamStop", "AfterStreamStop", "AfterRebalanceStart", "BeforeRebalanceEnd", "BeforeStreamStart", "AfterStreamStart", "AfterRebalanceEnd"} {
+		jobs = append(jobs, c16WinArg{Point: p, Op: "rebalance"})
+	}
+	for _, p := range []string{"BeforeStreamStop", "AfterStreamStop"} {
+		jobs = append(jobs, c16WinArg{Point: p, Op: "close"})
+	}
+	out := make([]ChildResult, len(jobs))
+	Parallel(len(jobs), 10, func(i int) { out[i] = RunChild("c16win", jobs[i], 30*time.Second) })
+	for i, j := range jobs {
+		rep := map[string]interface{}{"how": "vh child c16win", "scrape_during": j.Point, "of": j.Op}
+		c.Count("scrape-during:" + j.Point)
+		c.Eval("scrape during "+j.Point+" of "+j.Op, true)
+		var res *c16WinRes
+		for _, l := range out[i].Lines {
+			if strings.HasPrefix(l, "RESULT ") {
+				res = &c16WinRes{}
+				_ = json.Unmarshal([]byte(l[7:]), res)
+			}
+		}
+		what := fmt.Sprintf("a scrape during %s of a %s", j.Point, j.Op)
+		switch {
+		case res == nil:
+			c.Violate("scrape-crashes", fmt.Sprintf("%s: the process died (exit %d) %s", what, out[i].ExitCode, out[i].Fatal), rep)
+		case !res.Reached:
+			c.Note("c16win: %s was not reached", j.Point)
+		case res.Kind == "ignored":
+			c.Violate("scrape-blocks", what+" had not returned after 3 s", rep)
+		case res.Kind == "metrics":
+			// whatever is shown is the tracked position: vBucket 0 resumes from its checkpoint (2), vBucket 1 from 0
+			for vb, s := range res.Seqs {
+				if want := map[uint16]uint64{0: 2, 1: 0}[vb]; s != want {
+					rep["observed"] = res
+					c.Violate("scrape-window-value", fmt.Sprintf("%s shows vb %d at %d, the tracked position is %d", what, vb, s, want), rep)
+				}
+			}
+		}
 	}
 }
